@@ -263,7 +263,9 @@ receiveLoop:
 		otherRecordBuffer = leftRecordBuffer
 	}
 
-	if err := processRecordsUpTo(ctx, minWatermark, true); err != nil {
+	// Both sides may still have buffered records here, so both record trees must be kept up to date
+	// until markOneStreamRemains has actually been called.
+	if err := processRecordsUpTo(ctx, minWatermark, oneStreamRemains); err != nil {
 		return err
 	}
 
